@@ -271,7 +271,7 @@ def harness_dir():
     tgt = os.path.join(BUILD, "cargo-" + tag)
     if not os.path.exists(tgt) and os.path.exists(os.path.join(BUILD, "cargo")):
         # seed the target dir with the already compiled registry dependencies (only workspace crates rebuild)
-        sh(["cp", "-r", os.path.join(BUILD, "cargo"), tgt], timeout=600)
+        sh(["cp", "-a", os.path.join(BUILD, "cargo"), tgt], timeout=600)
     for root, dirs, files in os.walk(HARNESS):
         rel = os.path.relpath(root, HARNESS)
         os.makedirs(os.path.join(d, rel), exist_ok=True)
